@@ -199,6 +199,13 @@ func TestPropTestPolynomial(t *testing.T) { propTP.Check(t) }
 type Slot struct {
 	Index int `json:"index"`
 	P     int `json:"p"`
+	Fn    int `json:"fn,omitempty"`
+}
+
+// BRCall is one Evaluate call.
+type BRCall struct {
+	Slots []Slot `json:"slots"`
+	Fill  uint64 `json:"fill"`
 }
 
 type BRCase struct {
@@ -213,9 +220,12 @@ type BRCase struct {
 	F        FSpec   `json:"f"`
 	A        float64 `json:"a"`
 	B        float64 `json:"b"`
-	Slots    []Slot  `json:"slots"`
-	Fill     uint64  `json:"fill"` // seed of the values in the slots that are not requested
-	Seed     uint64  `json:"seed"`
+	F2       *FSpec  `json:"f2,omitempty"` // second function, for the slots with fn = 1
+	// Calls are evaluated one after the other with the SAME evaluator and key set, each on its own ciphertext
+	Calls []BRCall `json:"calls,omitempty"`
+	Slots []Slot   `json:"slots,omitempty"` // single call (replays written before Calls existed)
+	Fill  uint64   `json:"fill,omitempty"`  // seed of the values in the slots that are not requested
+	Seed  uint64   `json:"seed"`
 }
 
 func (c BRCase) RandSeed() uint64 { return c.Seed }
@@ -310,31 +320,72 @@ func genBR(t *rapid.T) BRCase {
 
 	c.F = genF(t)
 	c.A, c.B = genInterval(t)
-	nBR := c.BR.N()
-	ns := rapid.IntRange(1, 4).Draw(t, "nslots")
-	seen := map[int]bool{}
-	for i := 0; i < ns; i++ {
-		var s Slot
-		switch rapid.IntRange(0, 3).Draw(t, fmt.Sprintf("s%d_ik", i)) {
-		case 0:
-			s.Index = []int{0, nLWE - 1}[rapid.IntRange(0, 1).Draw(t, fmt.Sprintf("s%d_ib", i))]
-		default:
-			s.Index = rapid.IntRange(0, nLWE-1).Draw(t, fmt.Sprintf("s%d_i", i))
+	if rapid.IntRange(0, 2).Draw(t, "f2k") == 0 {
+		f2 := genF(t)
+		c.F2 = &f2
+	}
+	ncalls := []int{1, 1, 2, 2, 3}[rapid.IntRange(0, 4).Draw(t, "ncalls")]
+	for k := 0; k < ncalls; k++ {
+		c.Calls = append(c.Calls, genCall(t, &c, fmt.Sprintf("c%d", k)))
+	}
+	c.Seed = rapid.Uint64().Draw(t, "seed")
+	return c
+}
+
+// genCall draws one Evaluate call: a slot index subset (contiguous prefix, contiguous run, strided, or scattered; first
+// and last index favoured) and a grid point for every slot.
+func genCall(t *rapid.T, c *BRCase, l string) BRCall {
+	nLWE, nBR := c.LWE.N(), c.BR.N()
+	var idx []int
+	ns := rapid.IntRange(1, 5).Draw(t, l+"_n")
+	switch rapid.IntRange(0, 4).Draw(t, l+"_shape") {
+	case 0: // contiguous prefix
+		for i := 0; i < ns; i++ {
+			idx = append(idx, i)
 		}
-		if seen[s.Index] {
-			continue
+	case 1: // contiguous run somewhere
+		st := rapid.IntRange(0, nLWE-ns).Draw(t, l+"_start")
+		for i := 0; i < ns; i++ {
+			idx = append(idx, st+i)
 		}
-		seen[s.Index] = true
-		switch rapid.IntRange(0, 5).Draw(t, fmt.Sprintf("s%d_pk", i)) {
+	case 2: // strided
+		gap := rapid.IntRange(2, nLWE/ns).Draw(t, l+"_gap")
+		st := rapid.IntRange(0, nLWE-1-(ns-1)*gap).Draw(t, l+"_start")
+		for i := 0; i < ns; i++ {
+			idx = append(idx, st+i*gap)
+		}
+	default: // scattered
+		seen := map[int]bool{}
+		for i := 0; i < ns; i++ {
+			var x int
+			if rapid.IntRange(0, 3).Draw(t, fmt.Sprintf("%s_i%dk", l, i)) == 0 {
+				x = []int{0, nLWE - 1}[rapid.IntRange(0, 1).Draw(t, fmt.Sprintf("%s_i%db", l, i))]
+			} else {
+				x = rapid.IntRange(0, nLWE-1).Draw(t, fmt.Sprintf("%s_i%d", l, i))
+			}
+			if !seen[x] {
+				seen[x] = true
+				idx = append(idx, x)
+			}
+		}
+	}
+	call := BRCall{Fill: rapid.Uint64().Draw(t, l+"_fill")}
+	for i, x := range idx {
+		s := Slot{Index: x}
+		sl := fmt.Sprintf("%s_s%d", l, i)
+		if c.F2 != nil {
+			s.Fn = rapid.IntRange(0, 1).Draw(t, sl+"_fn")
+		}
+		switch rapid.IntRange(0, 6).Draw(t, sl+"_pk") {
 		case 0:
 			s.P = -nBR / 2 // x = a
 		case 1:
 			s.P = nBR/2 - 1 // last grid point below b
 		case 2:
-			s.P = rapid.IntRange(-2, 2).Draw(t, fmt.Sprintf("s%d_pz", i)) // around the middle of the interval
+			s.P = rapid.IntRange(-2, 2).Draw(t, sl+"_pz") // around the middle of the interval
 		case 3:
 			// around the sign change of x when the interval contains 0
-			z := int(math.Round((-c.A-c.B)/(c.B-c.A)*float64(nBR)/2)) + rapid.IntRange(-2, 2).Draw(t, fmt.Sprintf("s%d_p0", i))
+			z := int(math.Round((-c.A-c.B)/(c.B-c.A)*float64(nBR)/2)) + rapid.IntRange(-2, 2).Draw(t, sl+"_p0")
 			if z < -nBR/2 {
 				z = -nBR / 2
 			}
@@ -342,14 +393,18 @@ func genBR(t *rapid.T) BRCase {
 				z = nBR/2 - 1
 			}
 			s.P = z
+		case 4:
+			if rapid.IntRange(0, 1).Draw(t, sl+"_pb") == 0 {
+				s.P = nBR / 2 // x = b itself: the grid is half-open, the rotation wraps
+			} else {
+				s.P = rapid.IntRange(-nBR/2, nBR/2-1).Draw(t, sl+"_p")
+			}
 		default:
-			s.P = rapid.IntRange(-nBR/2, nBR/2-1).Draw(t, fmt.Sprintf("s%d_p", i))
+			s.P = rapid.IntRange(-nBR/2, nBR/2-1).Draw(t, sl+"_p")
 		}
-		c.Slots = append(c.Slots, s)
+		call.Slots = append(call.Slots, s)
 	}
-	c.Fill = rapid.Uint64().Draw(t, "fill")
-	c.Seed = rapid.Uint64().Draw(t, "seed")
-	return c
+	return call
 }
 
 func wCovers(Q []uint64, w int) bool {
@@ -432,8 +487,9 @@ func runBR(c BRCase, rec *h.Rec) error {
 	if err != nil {
 		return h.Failf("C20:harness:params", "BR parameters rejected: %v", err)
 	}
-	if len(c.Slots) == 0 {
-		return nil
+	calls := c.Calls
+	if len(calls) == 0 {
+		calls = []BRCall{{Slots: c.Slots, Fill: c.Fill}}
 	}
 	nL, nB := lwe.n, br.n
 	lvlL := c.LWELevel
@@ -454,34 +510,30 @@ func runBR(c BRCase, rec *h.Rec) error {
 	QBf := bigF(QB)
 	twoN := 2 * nB
 
-	g, fmax := c.F.fn(c.A, c.B)
-	scale := QBf / 4 / fmax
-	F := blindrot.InitTestPolynomial(g, rlwe.NewScale(scale), br.params.RingQ().AtLevel(keyLQ), c.A, c.B)
-
-	// LWE-side ciphertext: coefficient i holds y_i * Q/4 with y = 2p/N_BR the normalised input
-	rng := h.NewSplitMix(c.Fill)
-	enc := make([]*big.Int, nL)
-	for i := range enc {
-		v := h.BU(rng.Uint64())
-		v.Lsh(v, 64).Or(v, h.BU(rng.Uint64()))
-		enc[i] = v.Mod(v, QL)
+	// test polynomials: function 0 for every slot, function 1 (when present) for the slots that ask for it
+	type tp struct {
+		spec  FSpec
+		g     func(float64) float64
+		fmax  float64
+		scale float64
+		F     ring.Poly
+		FIn   ring.Poly
 	}
-	for _, s := range c.Slots {
-		v := new(big.Int).Mul(big.NewInt(int64(s.P)), QL)
-		enc[s.Index] = h.Mod(h.RoundDiv(v, big.NewInt(int64(twoN))), QL)
+	specs := []FSpec{c.F}
+	if c.F2 != nil {
+		specs = append(specs, *c.F2)
 	}
-	ptL := rlwe.NewPlaintext(lwe.params, lvlL)
-	setPoly(lwe.params, lvlL, enc, ptL.Value)
-	rqL := lwe.params.RingQ().AtLevel(lvlL)
-	if ptL.IsNTT {
-		rqL.NTT(ptL.Value, ptL.Value)
+	tps := make([]*tp, len(specs))
+	minAmp := math.Inf(1)
+	for i, sp := range specs {
+		t := &tp{spec: sp}
+		t.g, t.fmax = sp.fn(c.A, c.B)
+		t.scale = QBf / 4 / t.fmax
+		t.F = blindrot.InitTestPolynomial(t.g, rlwe.NewScale(t.scale), br.params.RingQ().AtLevel(keyLQ), c.A, c.B)
+		t.FIn = *t.F.CopyNew()
+		tps[i] = t
+		minAmp = math.Min(minAmp, t.scale*t.fmax)
 	}
-	ctL := rlwe.NewCiphertext(lwe.params, 1, lvlL)
-	if err := rlwe.NewEncryptor(lwe.params, lwe.sk).Encrypt(ptL, ctL); err != nil {
-		return h.Failf("C20:harness:encrypt", "%v", err)
-	}
-	ctLIn := ctL.CopyNew()
-	decL := lwe.decryptBig(ctL)
 
 	// keys
 	var evkParams []rlwe.EvaluationKeyParameters
@@ -498,7 +550,11 @@ func runBR(c BRCase, rec *h.Rec) error {
 		}
 		evkParams = append(evkParams, ep)
 	}
+	skLIn, skBIn := lwe.sk.CopyNew(), br.sk.CopyNew()
 	brk := blindrot.GenEvaluationKeyNew(br.params, br.sk, lwe.params, lwe.sk, evkParams...)
+	if !lwe.sk.Equal(skLIn) || !br.sk.Equal(skBIn) {
+		return h.Failf("C20:blindrot.GenEvaluationKeyNew:secret-key-modified", "GenEvaluationKeyNew modified a secret key")
+	}
 
 	// exactly one RGSW key per LWE secret coefficient, each an RGSW encryption of X^{s_i}; Galois keys g^1..g^W and -g
 	if len(brk.BlindRotationKeys) != nL {
@@ -553,205 +609,299 @@ func runBR(c BRCase, rec *h.Rec) error {
 		}
 		haveGal[gk.GaloisElement] = true
 	}
-
-	// evaluation
-	rk := &recKeys{inner: brk, brk: map[int]int{}, gal: map[uint64]int{}}
-	testPolys := map[int]*ring.Poly{}
-	for _, s := range c.Slots {
-		testPolys[s.Index] = &F
-	}
-	FIn := *F.CopyNew()
-	eval := blindrot.NewEvaluator(br.params, lwe.params)
-	var res map[int]*rlwe.Ciphertext
-	if keyLP < 0 && len(c.BR.P) > 0 {
-		// keys without auxiliary modulus under parameters that have one: the key switch of every automorphism asks
-		// Parameters.PiOverflowMargin(-1)
-		var pmsg string
-		func() {
-			defer func() {
-				if r := recover(); r != nil {
-					pmsg = fmt.Sprint(r)
-				}
-			}()
-			res, err = eval.Evaluate(ctL, testPolys, rk)
-		}()
-		if pmsg != "" {
-			msg := fmt.Sprintf("Evaluate with keys at LevelP=-1 under parameters with %d auxiliary primes panics: %s", len(c.BR.P), pmsg)
-			if rec.Known(keyLevelPNone, msg) {
-				rec.Class("known=keyLevelP-1-panic")
-				return nil
-			}
-			return h.Failf(keyLevelPNone, "%s", msg)
-		}
-	} else {
-		res, err = eval.Evaluate(ctL, testPolys, rk)
-	}
-	if err != nil {
-		return h.Failf("C20:blindrot.Evaluate:error", "Evaluate returned %v (lookups outside the key set: %v)", err, rk.outside)
-	}
-	if len(rk.outside) > 0 {
-		return h.Failf("C20:blindrot.Evaluate:key-outside-generated-set", "requested %v", rk.outside)
-	}
-	if !polysEqual(ctL, ctLIn) || !F.Equal(&FIn) {
-		return h.Failf("C20:blindrot.Evaluate:input-modified", "Evaluate modified its ciphertext or test polynomial")
-	}
-	if len(res) != len(c.Slots) {
-		return h.Failf("C20:blindrot.Evaluate:output-slots", "%d outputs for %d requested slots", len(res), len(c.Slots))
-	}
-	allGal := true
-	for g := range wantGal {
-		if rk.gal[g] == 0 {
-			allGal = false
-		}
+	// snapshot of the key material (first / last RGSW key, every Galois key)
+	snapRGSW := []*rgsw.Ciphertext{copyRGSW(brk.BlindRotationKeys[0]), copyRGSW(brk.BlindRotationKeys[nL-1])}
+	snapGal := make([]*rlwe.GadgetCiphertext, len(brk.AutomorphismKeys))
+	for i, gk := range brk.AutomorphismKeys {
+		snapGal[i] = gk.GadgetCiphertext.CopyNew()
 	}
 
 	// noise of one blind rotation
 	gm := geometry(brk.BlindRotationKeys[0])
 	var acc noiseAcc
 	acc.add(productNoise(br.params, gm, E, 2), float64(nL))
-	nAuto := float64(nL + 2*(nB/2/10+2) + 1)
+	nAuto := float64(nL + 2*(nB/2/10+2) + 2)
 	acc.add(productNoise(br.params, gm, E, 1), nAuto)
 	noise := afterModDown(br.params, gm, acc.bound(), br.sL1, float64(nL)+nAuto)
-	informative := noise < scale*fmax/16
+	informative := noise < minAmp/16
 
-	// reference model of the modulus switch (documented on modSwitchRLWETo2NLvl: round(x*2N/Q), odd by xor 1 unless zero)
-	ctc := ctL.CopyNew()
-	if ctc.IsNTT {
-		rqL.INTT(ctc.Value[0], ctc.Value[0])
-		rqL.INTT(ctc.Value[1], ctc.Value[1])
-	}
-	c0L := polyToBig(lwe.params, lvlL, ctc.Value[0])
-	c1L := polyToBig(lwe.params, lvlL, ctc.Value[1])
-	sw := func(x *big.Int, odd bool) int {
-		v := new(big.Int).Mul(x, big.NewInt(int64(twoN)))
-		r := int(new(big.Int).And(h.RoundDiv(v, QL), big.NewInt(int64(twoN-1))).Int64())
-		if odd && r&1 == 0 && r != 0 {
-			r ^= 1
-		}
-		return r
-	}
-	aSw := make([]int, nL)
-	for k := range aSw {
-		aSw[k] = sw(c1L[k], true)
-	}
-
-	// every RGSW key is used once per slot, except that a key whose mask coefficient switches to 0 may be skipped
-	// (X^{0*s_i} = 1); key 0 is read once more at the start of Evaluate to learn the level
-	for j := 0; j < nL; j++ {
-		zeros := 0
-		for _, s := range c.Slots {
-			if aSw[((s.Index-j)%nL+nL)%nL] == 0 {
-				zeros++
-			}
-		}
-		used := rk.brk[j]
-		if j == 0 {
-			used--
-		}
-		if used < len(c.Slots)-zeros || used > len(c.Slots) {
-			return h.Failf("C20:blindrot.Evaluate:rgsw-key-usage", "RGSW key %d requested %d times for %d slots (%d with a zero mask coefficient)", j, used, len(c.Slots), zeros)
-		}
-	}
-
-	sort.Slice(c.Slots, func(i, j int) bool { return c.Slots[i].Index < c.Slots[j].Index })
+	// ONE evaluator and ONE (recording) key set for all the calls of the case
+	rk := &recKeys{inner: brk}
+	eval := blindrot.NewEvaluator(br.params, lwe.params)
+	rqL := lwe.params.RingQ().AtLevel(lvlL)
 	slotClasses := map[string]bool{}
-	exact := 0
-	for _, s := range c.Slots {
-		out, ok := res[s.Index]
-		if !ok {
-			return h.Failf("C20:blindrot.Evaluate:output-slots", "no output for requested slot %d", s.Index)
-		}
-		if out.IsNTT != c.BR.NTT {
-			return h.Failf("C20:blindrot.Evaluate:output-domain", "output IsNTT=%v under parameters with NTTFlag=%v", out.IsNTT, c.BR.NTT)
-		}
-		if out.Level() != keyLQ {
-			// the accumulator is allocated at the maximum level; only the limbs of the key level carry the result
-			rec.Class("output-level>key-level")
-			out = out.CopyNew()
-			out.Resize(out.Degree(), keyLQ)
-		}
-		dec := br.decryptBig(out)
-		have := h.Center(dec[0], QB)
+	exact, nslots := 0, 0
+	allGalSeen := map[uint64]bool{}
 
-		// phase of the model and of the model with the two observed quirks (mask coefficient 0 or -1 handled as +1)
-		pm := sw(c0L[s.Index], false)
-		pq := pm
+	for ci, call := range calls {
+		if len(call.Slots) == 0 {
+			continue
+		}
+		// LWE-side ciphertext: coefficient i holds y_i * Q/4 with y = 2p/N_BR the normalised input
+		rng := h.NewSplitMix(call.Fill)
+		enc := make([]*big.Int, nL)
+		for i := range enc {
+			v := h.BU(rng.Uint64())
+			v.Lsh(v, 64).Or(v, h.BU(rng.Uint64()))
+			enc[i] = v.Mod(v, QL)
+		}
+		testPolys := map[int]*ring.Poly{}
+		slotFn := map[int]*tp{}
+		for _, s := range call.Slots {
+			v := new(big.Int).Mul(big.NewInt(int64(s.P)), QL)
+			enc[s.Index] = h.Mod(h.RoundDiv(v, big.NewInt(int64(twoN))), QL)
+			t := tps[0]
+			if s.Fn > 0 && len(tps) > 1 {
+				t = tps[1]
+			}
+			testPolys[s.Index] = &t.F
+			slotFn[s.Index] = t
+		}
+		ptL := rlwe.NewPlaintext(lwe.params, lvlL)
+		setPoly(lwe.params, lvlL, enc, ptL.Value)
+		if ptL.IsNTT {
+			rqL.NTT(ptL.Value, ptL.Value)
+		}
+		ctL := rlwe.NewCiphertext(lwe.params, 1, lvlL)
+		if err := rlwe.NewEncryptor(lwe.params, lwe.sk).Encrypt(ptL, ctL); err != nil {
+			return h.Failf("C20:harness:encrypt", "%v", err)
+		}
+		ctLIn := ctL.CopyNew()
+		decL := lwe.decryptBig(ctL)
+
+		rk.brk, rk.gal, rk.outside = map[int]int{}, map[uint64]int{}, nil
+		var res map[int]*rlwe.Ciphertext
+		if keyLP < 0 && len(c.BR.P) > 0 {
+			// keys without auxiliary modulus under parameters that have one: the key switch of every automorphism asks
+			// Parameters.PiOverflowMargin(-1)
+			var pmsg string
+			func() {
+				defer func() {
+					if r := recover(); r != nil {
+						pmsg = fmt.Sprint(r)
+					}
+				}()
+				res, err = eval.Evaluate(ctL, testPolys, rk)
+			}()
+			if pmsg != "" {
+				msg := fmt.Sprintf("Evaluate with keys at LevelP=-1 under parameters with %d auxiliary primes panics: %s", len(c.BR.P), pmsg)
+				if rec.Known(keyLevelPNone, msg) {
+					rec.Class("known=keyLevelP-1-panic")
+					return nil
+				}
+				return h.Failf(keyLevelPNone, "%s", msg)
+			}
+		} else {
+			res, err = eval.Evaluate(ctL, testPolys, rk)
+		}
+		if err != nil {
+			return h.Failf("C20:blindrot.Evaluate:error", "call %d: Evaluate returned %v (lookups outside the key set: %v)", ci, err, rk.outside)
+		}
+		if len(rk.outside) > 0 {
+			return h.Failf("C20:blindrot.Evaluate:key-outside-generated-set", "call %d requested %v", ci, rk.outside)
+		}
+		if !polysEqual(ctL, ctLIn) {
+			return h.Failf("C20:blindrot.Evaluate:input-modified", "call %d: Evaluate modified its ciphertext", ci)
+		}
+		for _, t := range tps {
+			if !t.F.Equal(&t.FIn) {
+				return h.Failf("C20:blindrot.Evaluate:input-modified", "call %d: Evaluate modified a test polynomial", ci)
+			}
+		}
+		if len(res) != len(call.Slots) {
+			return h.Failf("C20:blindrot.Evaluate:output-slots", "call %d: %d outputs for %d requested slots", ci, len(res), len(call.Slots))
+		}
+		for g := range rk.gal {
+			allGalSeen[g] = true
+		}
+
+		// reference model of the modulus switch (documented on modSwitchRLWETo2NLvl: round(x*2N/Q), odd by xor 1 unless zero)
+		ctc := ctL.CopyNew()
+		if ctc.IsNTT {
+			rqL.INTT(ctc.Value[0], ctc.Value[0])
+			rqL.INTT(ctc.Value[1], ctc.Value[1])
+		}
+		c0L := polyToBig(lwe.params, lvlL, ctc.Value[0])
+		c1L := polyToBig(lwe.params, lvlL, ctc.Value[1])
+		sw := func(x *big.Int, odd bool) int {
+			v := new(big.Int).Mul(x, big.NewInt(int64(twoN)))
+			r := int(new(big.Int).And(h.RoundDiv(v, QL), big.NewInt(int64(twoN-1))).Int64())
+			if odd && r&1 == 0 && r != 0 {
+				r ^= 1
+			}
+			return r
+		}
+		aSw := make([]int, nL)
+		for k := range aSw {
+			aSw[k] = sw(c1L[k], true)
+		}
+
+		// every RGSW key is used once per slot, except that a key whose mask coefficient switches to 0 may be skipped
+		// (X^{0*s_i} = 1); key 0 is read once more at the start of Evaluate to learn the level
 		for j := 0; j < nL; j++ {
-			sj := int(lwe.s[j].Int64())
-			if sj == 0 {
-				continue
+			zeros := 0
+			for _, s := range call.Slots {
+				if aSw[((s.Index-j)%nL+nL)%nL] == 0 {
+					zeros++
+				}
 			}
-			var a int
-			if j <= s.Index {
-				a = aSw[s.Index-j]
-			} else {
-				a = (twoN - aSw[nL+s.Index-j]) & (twoN - 1)
+			used := rk.brk[j]
+			if j == 0 {
+				used--
 			}
-			pm += a * sj
-			if a == 0 || a == twoN-1 {
-				a = 1
+			if used < len(call.Slots)-zeros || used > len(call.Slots) {
+				return h.Failf("C20:blindrot.Evaluate:rgsw-key-usage", "call %d: RGSW key %d requested %d times for %d slots (%d with a zero mask coefficient)", ci, j, used, len(call.Slots), zeros)
 			}
-			pq += a * sj
-		}
-		// discretisation: the model stays within D grid steps of x (rounding of b: 1/2, of every mask coefficient to
-		// an odd value: 3/2, LWE noise scaled to the grid)
-		eL := h.Center(new(big.Int).Sub(decL[s.Index], enc[s.Index]), QL)
-		D := math.Ceil(0.5 + 1.5*lwe.sL1 + (math.Abs(bigF(eL))+1)*float64(twoN)/QLf)
-		drift := ((pm-s.P)%twoN + twoN) % twoN
-		if drift > nB {
-			drift -= twoN
-		}
-		if math.Abs(float64(drift)) > D {
-			return h.Failf("C20:harness:drift-model", "model phase %d is %d steps from x (p=%d), bound %v", pm, drift, s.P, D)
 		}
 
-		pm = ((pm % twoN) + twoN) % twoN
-		pq = ((pq % twoN) + twoN) % twoN
-		want := lookup(g, scale, c.A, c.B, nB, pm)
-		tol := noise + 1 + math.Abs(want)*math.Exp2(-50)
-		dist := math.Abs(bigF(have) - want)
-		where := "interior"
-		switch {
-		case s.P == -nB/2:
-			where = "x=a"
-		case s.P == nB/2-1:
-			where = "x=b-step"
-		case c.A < 0 && c.B > 0 && math.Abs(float64(s.P)-(-c.A-c.B)/(c.B-c.A)*float64(nB)/2) <= 2:
-			where = "sign-change"
-		}
-		slotClasses[where] = true
-		rec.Classf("slot=%s", where)
-		if D*8 >= float64(nB) {
-			rec.Class("drift>=interval/8")
-		}
-		if dist <= tol {
-			exact++
-			continue
-		}
-		wantQ := lookup(g, scale, c.A, c.B, nB, pq)
-		msg := fmt.Sprintf("N_LWE=%d N_BR=%d nP=%d w=%d f=%s [%g,%g] slot %d p=%d: constant coefficient %.0f, model phase %d expects %.0f (noise bound %.0f, Q=2^%.1f)",
-			nL, nB, len(c.BR.P), c.W, c.F.Kind, c.A, c.B, s.Index, s.P, bigF(have), pm, want, noise, math.Log2(QBf))
-		if pq != pm && math.Abs(bigF(have)-wantQ) <= noise+1+math.Abs(wantQ)*math.Exp2(-50) {
-			msg += fmt.Sprintf("; matches phase %d obtained when mask coefficients equal to 0 or -1 mod 2N are processed as +1", pq)
-			if rec.Known(keyMaskQuirk, msg) {
-				rec.Class("known=mask-0-or-minus-1")
+		slots := append([]Slot(nil), call.Slots...)
+		sort.Slice(slots, func(i, j int) bool { return slots[i].Index < slots[j].Index })
+		rec.Classf("subset=%s", subsetClass(slots))
+		for _, s := range slots {
+			nslots++
+			t := slotFn[s.Index]
+			out, ok := res[s.Index]
+			if !ok {
+				return h.Failf("C20:blindrot.Evaluate:output-slots", "call %d: no output for requested slot %d", ci, s.Index)
+			}
+			if out.IsNTT != c.BR.NTT {
+				return h.Failf("C20:blindrot.Evaluate:output-domain", "output IsNTT=%v under parameters with NTTFlag=%v", out.IsNTT, c.BR.NTT)
+			}
+			if out.Level() != keyLQ {
+				// the accumulator is allocated at the maximum level; only the limbs of the key level carry the result
+				rec.Class("output-level>key-level")
+				out = out.CopyNew()
+				out.Resize(out.Degree(), keyLQ)
+			}
+			dec := br.decryptBig(out)
+			have := h.Center(dec[0], QB)
+
+			// phase of the model and of the model with the two former quirks (mask coefficient 0 or -1 handled as +1)
+			pm := sw(c0L[s.Index], false)
+			pq := pm
+			for j := 0; j < nL; j++ {
+				sj := int(lwe.s[j].Int64())
+				if sj == 0 {
+					continue
+				}
+				var a int
+				if j <= s.Index {
+					a = aSw[s.Index-j]
+				} else {
+					a = (twoN - aSw[nL+s.Index-j]) & (twoN - 1)
+				}
+				pm += a * sj
+				if a == 0 || a == twoN-1 {
+					a = 1
+				}
+				pq += a * sj
+			}
+			// discretisation: the model stays within D grid steps of x (rounding of b: 1/2, of every mask coefficient to
+			// an odd value: 3/2, LWE noise scaled to the grid)
+			eL := h.Center(new(big.Int).Sub(decL[s.Index], enc[s.Index]), QL)
+			D := math.Ceil(0.5 + 1.5*lwe.sL1 + (math.Abs(bigF(eL))+1)*float64(twoN)/QLf)
+			drift := ((pm-s.P)%twoN + twoN) % twoN
+			if drift > nB {
+				drift -= twoN
+			}
+			if math.Abs(float64(drift)) > D {
+				return h.Failf("C20:harness:drift-model", "model phase %d is %d steps from x (p=%d), bound %v", pm, drift, s.P, D)
+			}
+
+			pm = ((pm % twoN) + twoN) % twoN
+			pq = ((pq % twoN) + twoN) % twoN
+			want := lookup(t.g, t.scale, c.A, c.B, nB, pm)
+			tol := noise + 1 + math.Abs(want)*math.Exp2(-50)
+			dist := math.Abs(bigF(have) - want)
+			where := "interior"
+			switch {
+			case s.P == -nB/2:
+				where = "x=a"
+			case s.P == nB/2:
+				// the grid is half-open: a rotation by N/2 wraps negacyclically and selects -f(a), not f(b)
+				where = "x=b(wraps)"
+			case s.P == nB/2-1:
+				where = "x=b-step"
+			case c.A < 0 && c.B > 0 && math.Abs(float64(s.P)-(-c.A-c.B)/(c.B-c.A)*float64(nB)/2) <= 2:
+				where = "sign-change"
+			}
+			slotClasses[where] = true
+			rec.Classf("slot=%s", where)
+			if s.P == nB/2 && drift == 0 && informative {
+				// record what the end point b itself returns
+				fb, fa := t.g(c.B), t.g(c.A)
+				isFb := math.Abs(bigF(have)-t.scale*fb) <= tol
+				isMinusFa := math.Abs(bigF(have)+t.scale*fa) <= tol
+				switch {
+				case isFb && isMinusFa:
+					rec.Class("x=b exactly: f(b) = -f(a), returned")
+				case isMinusFa:
+					rec.Class("x=b exactly: returns -f(a), not f(b)")
+				case isFb:
+					rec.Class("x=b exactly: returns f(b)")
+				}
+			}
+			if D*8 >= float64(nB) {
+				rec.Class("drift>=interval/8")
+			}
+			if dist <= tol {
+				exact++
 				continue
 			}
-			return h.Failf(keyMaskQuirk, "%s", msg)
+			wantQ := lookup(t.g, t.scale, c.A, c.B, nB, pq)
+			msg := fmt.Sprintf("call %d of %d, N_LWE=%d N_BR=%d nQ=%d nP=%d w=%d f=%s [%g,%g] slot %d p=%d: constant coefficient %.0f, model phase %d expects %.0f (noise bound %.0f, Q=2^%.1f)",
+				ci+1, len(calls), nL, nB, len(c.BR.Q), len(c.BR.P), c.W, t.spec.Kind, c.A, c.B, s.Index, s.P, bigF(have), pm, want, noise, math.Log2(QBf))
+			if pq != pm && math.Abs(bigF(have)-wantQ) <= noise+1+math.Abs(wantQ)*math.Exp2(-50) {
+				msg += fmt.Sprintf("; matches phase %d obtained when mask coefficients equal to 0 or -1 mod 2N are processed as +1", pq)
+				if rec.Known(keyMaskQuirk, msg) {
+					rec.Class("known=mask-0-or-minus-1")
+					continue
+				}
+				return h.Failf(keyMaskQuirk, "%s", msg)
+			}
+			if !informative {
+				rec.Class("uninformative-miss")
+				continue
+			}
+			key := "C20:blindrot.Evaluate:" + pathBR(c) + ":wrong-lookup"
+			if ci > 0 {
+				key = "C20:blindrot.Evaluate:" + pathBR(c) + ":reused-evaluator:wrong-lookup"
+			}
+			return h.Failf(key, "%s", msg)
 		}
-		if !informative {
-			rec.Class("uninformative-miss")
-			continue
+	}
+
+	// key material and secrets untouched by the evaluations
+	if !lwe.sk.Equal(skLIn) || !br.sk.Equal(skBIn) {
+		return h.Failf("C20:blindrot.Evaluate:secret-key-modified", "a secret key changed during the case")
+	}
+	for i, k := range []*rgsw.Ciphertext{brk.BlindRotationKeys[0], brk.BlindRotationKeys[nL-1]} {
+		if !k.Value[0].Equal(&snapRGSW[i].Value[0]) || !k.Value[1].Equal(&snapRGSW[i].Value[1]) {
+			return h.Failf("C20:blindrot.Evaluate:keys-modified", "an RGSW key was modified by Evaluate")
 		}
-		return h.Failf("C20:blindrot.Evaluate:"+pathBR(c)+":wrong-lookup", "%s", msg)
+	}
+	for i, gk := range brk.AutomorphismKeys {
+		if !gk.GadgetCiphertext.Equal(snapGal[i]) {
+			return h.Failf("C20:blindrot.Evaluate:keys-modified", "the Galois key for %d was modified by Evaluate", gk.GaloisElement)
+		}
+	}
+	allGal := true
+	for g := range wantGal {
+		if !allGalSeen[g] {
+			allGal = false
+		}
 	}
 
 	rec.Classf("N=%d->%d", nL, nB)
 	rec.Classf("path=%s", pathBR(c))
-	rec.Classf("f=%s", c.F.Kind)
+	rec.Classf("brQ=%d", len(c.BR.Q))
+	for _, t := range tps {
+		rec.Classf("f=%s", t.spec.Kind)
+	}
+	rec.Classf("functions=%d", len(tps))
 	rec.Classf("lwe-%s", hClass(lwe.sL1, nL))
 	rec.Classf("ntt=%v/%v", c.LWE.NTT, c.BR.NTT)
-	rec.Classf("slots=%d", len(c.Slots))
+	rec.Classf("calls=%d", len(calls))
 	rec.Classf("keyLevels=Q-%d/P-%d", c.KeyDropQ, c.KeyDropP)
 	rec.Classf("lweXs=%s", c.LWE.Xs.Kind)
 	rec.Classf("lweQ=%d/level=%d", len(c.LWE.Q), lvlL)
@@ -766,15 +916,39 @@ func runBR(c BRCase, rec *h.Rec) error {
 	}
 	rec.Note("log2_noise_bound", math.Log2(noise+1))
 	rec.Note("exact_slots", exact)
-	if informative {
+	if informative && nslots > 0 {
 		var sc []string
 		for k := range slotClasses {
 			sc = append(sc, k)
 		}
 		sort.Strings(sc)
-		rec.NonTrivial(fmt.Sprintf("br|%d->%d|%s|w%s|f=%s|%s|ntt%v%v|%v|n%d", nL, nB, pathBR(c), wClass(c.W), c.F.Kind, hClass(lwe.sL1, nL), c.LWE.NTT, c.BR.NTT, sc, len(c.Slots)))
+		rec.NonTrivial(fmt.Sprintf("br|%d->%d|%s|nQ%d|w%s|f=%s/%d|%s|ntt%v%v|%v|calls%d|drop%d%d", nL, nB, pathBR(c), len(c.BR.Q), wClass(c.W), c.F.Kind, len(tps), hClass(lwe.sL1, nL), c.LWE.NTT, c.BR.NTT, sc, len(calls), c.KeyDropQ, c.KeyDropP))
 	}
 	return nil
+}
+
+// subsetClass names the shape of a sorted slot index subset.
+func subsetClass(slots []Slot) string {
+	if len(slots) == 1 {
+		if slots[0].Index <= 1 {
+			return "single<=1"
+		}
+		return "single>1"
+	}
+	gaps := false
+	for i := 1; i < len(slots); i++ {
+		if slots[i].Index != slots[i-1].Index+1 {
+			gaps = true
+		}
+	}
+	switch {
+	case !gaps && slots[0].Index <= 1:
+		return "contiguous-prefix"
+	case !gaps:
+		return "contiguous-offset"
+	default:
+		return "gaps"
+	}
 }
 
 func pathBR(c BRCase) string {
